@@ -34,7 +34,8 @@ PLAN = {
     "C07": {"level": "exploration", "units": [
         unit("cyc", "TestC07", 3000, 40000, replay="TestReplayC07"),
         unit("cyc", "TestC07Hist", 1200, 15000, seed_off=200),
-        unit("loop", "TestC07Loop", 150, 3000, seed_off=700, shrinktime="30s")]},
+        unit("loop", "TestC07Loop", 150, 3000, seed_off=700, shrinktime="30s"),
+        unit("loop", "TestC07Drain", 200, 4000, seed_off=750, shrinktime="30s")]},
     "C08": {"level": "exploration", "units": [
         unit("cyc", "TestC08", 3000, 40000, replay="TestReplayC08"),
         unit("cyc", "TestC08Hist", 1200, 15000, seed_off=200),
